@@ -128,3 +128,20 @@ def register(reg):
             f'not out_ok({BODYJ.replace("{j}", "k")}, {OPTF.replace("{j}", "k")}) and out_cut({BODYJ.replace("{j}", "k")}, {OPTF.replace("{j}", "k")}) '
             f'for k in range(0, len(self.options)))']},
         propagates=[GROW])
+
+    # ------------------------------------------------------------------ sequence
+    N = 'len(self.sequence)'
+    ITEM = 'spec_ungroup(self.sequence[{k}])'
+    FR = 'spec_seq_frame(self, %s, {k})' % OTOP
+    contract(
+        reg, f'{Sx}:Sequence._parse', ALL, {'self': 'opaque:Model', 'ctx': 'Ctx'}, ret='Val', requires=REQ,
+        invariants={0: [f'spec_seq_ok(self, {OTOP}, __i0)', f'{STK} == {OSTK}[:-1] + [spec_seq_frame(self, {OTOP}, __i0)]',
+                        f'out == spec_seq_out(self, {OTOP}, __i0)'],
+                    1: ['spec_ungroup(exp) == spec_ungroup(s)']},
+        ensures=[('property', f'spec_seq_ok(self, {OTOP}, {N})'),
+                 ('property', f'{STK} == {OSTK}[:-1] + [spec_seq_frame(self, {OTOP}, {N})]'),
+                 ('property', f'result == spec_seq_out(self, {OTOP}, {N})')],
+        raises={'FailedParse': [
+            f'any(spec_seq_ok(self, {OTOP}, k) and not out_ok({ITEM.format(k="k")}, {FR.format(k="k")}) and '
+            f'{STK} == {OSTK}[:-1] + [out_fail_frame({ITEM.format(k="k")}, {FR.format(k="k")})] for k in range(0, {N}))']},
+        propagates=[GROW])
